@@ -53,12 +53,13 @@ SPECS["C36"] = {
 }
 
 SPECS["C11"] = {
-    "parts": [{"engine": "m", "module": "c11"}],
+    "parts": [{"engine": "m", "module": "c11"}, {"engine": "m", "module": "c11f"}],
     "bounds": "to_multi_int::<T>: source variants U8/U16/I16/U32/I32/U64/I64 with 0, 1 and 2 symbolic full-width items x target types "
-              "u8..i64 (quick: 14 seed-rotated (source,target) pairs, thorough: all 49)",
-    "outside": "more than 2 items; textual sources (Str/Strs: std's integer parser); float conversions; extend_*/truncate (not yet encoded)",
+              "u8..i64 (quick: 14 seed-rotated (source,target) pairs, thorough: all 49); to_float32 / to_float64 on the same 7 integer source variants with 0..2 symbolic full-width items",
+    "outside": "more than 2 items; textual sources (Str/Strs: std's integer and float parsers); float sources and the multi-valued float conversions; extend_*/truncate (not yet encoded)",
     "assumptions": ["contracts: SmallVec::{is_empty,deref}, slice::iter, Iterator::{map,collect::<Result<Vec<T>,E>>}, <T as NumCast>::from = range "
-                    "check + truncation (num-traits doc), Option::ok_or_else, opaque error constructors"],
+                    "check + truncation (num-traits doc), <f32|f64 as NumCast>::from::<int> = Some(value as float) (num-traits doc), Option::ok_or_else, opaque error constructors",
+                    "oracle for the float conversions: z3's correctly rounded (RNE) integer -> IEEE-754 conversion, which is what Rust's `as` specifies"],
 }
 
 SPECS["C22"] = {
